@@ -321,6 +321,70 @@ for name, tmpl in LAYOUTS.items():
         prol["%s/%s" % (name, "async" if a else "sync")] = found
 out["prologues"] = prol
 
+# ---------------------------------------------------------------- exit-call templates
+EXIT_SRC = {
+    "fall": """
+{a}def fn(cm):
+    {kw} cm:
+        BODY_MARK
+    AFTER_MARK
+""",
+    "return_value": """
+{a}def fn(cm, v):
+    {kw} cm:
+        BODY_MARK
+        return v
+    AFTER_MARK
+""",
+    "return_const": """
+{a}def fn(cm):
+    {kw} cm:
+        BODY_MARK
+        return 5
+    AFTER_MARK
+""",
+    "break": """
+{a}def fn(cm, xs):
+    for x in xs:
+        {kw} cm:
+            BODY_MARK
+            break
+    AFTER_MARK
+""",
+}
+
+
+def exit_template(src):
+    """instructions of the normal (non-exception) exit of the with block: from after the body to the
+    POP_TOP that discards __exit__'s result"""
+    for insns in insns_of(src):
+        idx = [i for i, x in enumerate(insns) if x.opname in ("LOAD_GLOBAL", "LOAD_NAME") and x.argval == "BODY_MARK"]
+        if not idx:
+            continue
+        i = idx[0] + 2  # skip LOAD + POP_TOP of the marker statement
+        seq = []
+        calls = ("CALL_FUNCTION", "CALL", "CALL_METHOD")
+        seen_call = False
+        for x in insns[i:]:
+            if x.opname in ("LOAD_GLOBAL", "LOAD_NAME") and x.argval == "AFTER_MARK":
+                break
+            seq.append([x.opname, x.arg if x.arg is not None else -1])
+            if x.opname in calls:
+                seen_call = True
+            if seen_call and x.opname == "POP_TOP":
+                break
+            if len(seq) > 40:
+                break
+        return seq
+    raise RuntimeError("no exit template")
+
+
+ex = {}
+for name, tmpl in EXIT_SRC.items():
+    for a, kw in (("", "with"), ("async ", "async with")):
+        ex["%s/%s" % (name, "async" if a else "sync")] = exit_template(tmpl.format(a=a, kw=kw))
+out["exit_templates"] = ex
+
 # ---------------------------------------------------------------- stdlib API surface (names + call signatures)
 import importlib
 import inspect
